@@ -136,6 +136,7 @@ func genSimCase(r *lib.RNG, name string, geth bool) *Case {
 	}
 	if !geth && r.Chance(1, 7) {
 		c.Mode = "oneshot"
+		finish(r, c)
 		return c
 	}
 	maybeSync := func() {
@@ -209,7 +210,24 @@ func genSimCase(r *lib.RNG, name string, geth bool) *Case {
 			for k := r.Range(1, 3); k > 0; k-- {
 				fresh = append(fresh, s.newBlock()...)
 			}
-			if r.Bool() {
+			// go-ethereum's filter system takes removed logs and new logs from two feeds in one
+			// select: either may come first, or they interleave
+			if x := r.Intn(8); x < 2 && len(removed) > 0 && len(fresh) > 0 {
+				var mixed []Log
+				if x == 0 {
+					mixed = append(append([]Log{}, fresh...), removed...) // replacement first
+				} else {
+					a, b := removed, fresh
+					for len(a)+len(b) > 0 {
+						if len(b) == 0 || (len(a) > 0 && r.Bool()) {
+							mixed, a = append(mixed, a[0]), a[1:]
+						} else {
+							mixed, b = append(mixed, b[0]), b[1:]
+						}
+					}
+				}
+				c.Ops = append(c.Ops, Op{Kind: "send", Logs: mixed})
+			} else if r.Bool() {
 				if len(removed)+len(fresh) > 0 {
 					c.Ops = append(c.Ops, Op{Kind: "send", Logs: append(append([]Log{}, removed...), fresh...)})
 				}
@@ -250,7 +268,18 @@ func genSimCase(r *lib.RNG, name string, geth bool) *Case {
 			c.Ops = append(c.Ops, Op{Kind: "sync"})
 		}
 	}
+	finish(r, c)
 	return c
+}
+
+// finish: one case in five gets large, sparse L1 heights.
+func finish(r *lib.RNG, c *Case) {
+	if !r.Chance(1, 5) {
+		return
+	}
+	stride := lib.Pick(r, []uint64{7, 300, 1000, 2500})
+	spread(c, uint64(r.Range(0, 3))*1_000_000, stride)
+	c.Chunk = lib.Pick(r, []uint64{stride/2 + 1, stride, stride + 1, 1000, 3 * stride})
 }
 
 // gethDirected: several reorgs on ONE subscription, the later ones at or above the height of the
@@ -574,6 +603,71 @@ func boundaryCases() []*Case {
 			Ops:  []Op{{Kind: "sync"}, {Kind: "send", Logs: []Log{big(10, 8)}}, {Kind: "sync"}, {Kind: "fin", Fin: 8}, {Kind: "sync"}}}),
 		mk("stored-older-than-scan", Case{Mode: "run", Chunk: 2, Latest: 9, Fin1: 6, Fin2: 6, Stored: &HeadJ{7, 7, 14}, StoredL1: 2,
 			Hist: []Log{big(7, 2), big(8, 4)}, Ops: []Op{{Kind: "sync"}}}),
+	}
+}
+
+// The review's trace: the log of the replacement chain is delivered before the removal notice of
+// the log it replaces.
+func leadOvertake() *Case {
+	a := Log{L2: 1, Hash: 0x10, Root: 0x1010, L1: 5}
+	b := Log{L2: 2, Hash: 0x20, Root: 0x1020, L1: 6}
+	b2 := Log{L2: 2, Hash: 0x21, Root: 0x1021, L1: 6}
+	rb := b
+	rb.Removed = true
+	return &Case{Name: "lead-overtake", Family: "chain", Mode: "run", FilterFailAt: -1, Canonical: true,
+		Chunk: 1000, Latest: 10, Fin1: 3, Fin2: 3, LatestFail: true, PollMicros: 200,
+		Ops: []Op{{Kind: "send", Logs: []Log{a, b}}, {Kind: "sync"}, {Kind: "send", Logs: []Log{b2, rb}}, {Kind: "sync"},
+			{Kind: "fin", Fin: 10}, {Kind: "sync"}}}
+}
+
+// ---- family "dbfault": the stored-head read / write fails inside setL1Head -------------------
+
+func dbFaultCases() []*Case {
+	h1 := []Log{{L2: 1, Hash: 0x10, Root: 0x1010, L1: 1}, {L2: 2, Hash: 0x20, Root: 0x1020, L1: 3}}
+	var out []*Case
+	for _, kind := range []string{"r", "w"} {
+		for at := 1; at <= 3; at++ {
+			for _, stored := range []bool{false, true} {
+				for _, scan := range []bool{false, true} {
+					c := &Case{Family: "dbfault", Mode: "run", FilterFailAt: -1, Canonical: true, Chunk: 2,
+						Latest: 6, Fin1: 3, Fin2: 3, LatestFail: !scan, PollMicros: 100, DBFault: kind, DBFaultAt: at,
+						Ops: []Op{{Kind: "send", Logs: []Log{{L2: 3, Hash: 0x30, Root: 0x1030, L1: 4}}}, {Kind: "sync"},
+							{Kind: "fin", Fin: 4}, {Kind: "sync"},
+							{Kind: "send", Logs: []Log{{L2: 4, Hash: 0x40, Root: 0x1040, L1: 5}, {L2: 5, Hash: 0x50, Root: 0x1050, L1: 6}}},
+							{Kind: "fin", Fin: 5}, {Kind: "sync"}, {Kind: "fin", Fin: 6}, {Kind: "sync"}}}
+					if scan {
+						c.Hist = h1
+					}
+					if stored {
+						c.Stored, c.StoredL1 = &HeadJ{1, 0x10, 0x1010}, 1
+					}
+					c.Name = fmt.Sprintf("dbfault-%s%d-stored%v-scan%v", kind, at, stored, scan)
+					out = append(out, c)
+				}
+			}
+		}
+	}
+	return out
+}
+
+// spread maps every L1 height of a case through x -> base + x*stride (order preserving): large,
+// sparse heights, so that a chunk of 1000 blocks is no longer "one query".
+func spread(c *Case, base, stride uint64) {
+	f := func(x uint64) uint64 { return base + x*stride }
+	for i := range c.Hist {
+		c.Hist[i].L1 = f(c.Hist[i].L1)
+	}
+	for i := range c.Decoys {
+		c.Decoys[i].L1 = f(c.Decoys[i].L1)
+	}
+	c.Latest, c.Fin1, c.Fin2, c.StoredL1 = f(c.Latest), f(c.Fin1), f(c.Fin2), f(c.StoredL1)
+	for i := range c.Ops {
+		if c.Ops[i].Kind == "fin" {
+			c.Ops[i].Fin = f(c.Ops[i].Fin)
+		}
+		for j := range c.Ops[i].Logs {
+			c.Ops[i].Logs[j].L1 = f(c.Ops[i].Logs[j].L1)
+		}
 	}
 }
 
